@@ -105,6 +105,23 @@ def faultyFaults (plan : Plan) : List Bool :=
 def faultySends (cfg : Config) (plan : Plan) : List (Bytes × Bool) :=
   sendsWith (dataRequest cfg.challenge) plan
 
+/-! The same for a reply that carries extra field sections (`ConfigX`): the plans, the flags and the prescribed outcome
+do not mention the layout; script and sends take the challenge from the configuration, the packets are those with the
+extra sections. -/
+
+def Attempt.deliveriesX (cfg : ConfigX) (a : Attempt) : List Delivery := a.deliveriesAt cfg.challenge
+def Attempt.sendsX (cfg : ConfigX) (a : Attempt) : List (Bytes × Bool) := a.sendsWith (dataRequest cfg.challenge)
+def Ending.deliveriesX (cfg : ConfigX) (arrival : List Bytes) (e : Ending) : List Delivery :=
+  e.deliveriesAt cfg.challenge arrival
+def Ending.sendsX (cfg : ConfigX) (e : Ending) : List (Bytes × Bool) := e.sendsWith (dataRequest cfg.challenge)
+
+/-- what the peer delivers under the plan, the data packets of the valid exchange (`dataPacketsX`) arriving as `arrival` -/
+def faultyScriptX (cfg : ConfigX) (plan : Plan) (arrival : List Bytes) : List Delivery :=
+  scriptAt cfg.challenge plan arrival
+
+def faultySendsX (cfg : ConfigX) (plan : Plan) : List (Bytes × Bool) :=
+  sendsWith (dataRequest cfg.challenge) plan
+
 /-- the kind byte a reply of that stage starts with -/
 def Stage.kind : Stage → UInt8
   | .handshake => 9
@@ -142,6 +159,9 @@ def packetsOutcome (good : List Bytes) (plan : Plan) : Res (List Bytes) :=
 
 def faultyPackets (cfg : Config) (st : State) (plan : Plan) : Res (List Bytes) :=
   packetsOutcome (payloads cfg st) plan
+
+def faultyPacketsX (cfg : ConfigX) (st : State) (plan : Plan) : Res (List Bytes) :=
+  packetsOutcome (payloadsX cfg st) plan
 
 /-- … and for the query -/
 def faultyExpected (st : State) (plan : Plan) : Res Response :=
